@@ -45,8 +45,11 @@ static std::vector<long> alt_sizes(long cap){ std::vector<long> a; if(cap<=1) re
 static bool is_nonblocking(int fd){ int fl=fcntl(fd,F_GETFL); return fl>=0&&(fl&O_NONBLOCK); }
 } // namespace wire
 
-extern "C" int accept(int fd,struct sockaddr *a,socklen_t *l){ int r=syscall(SYS_accept,fd,a,l); if(r>=0){ std::lock_guard<std::mutex> g(wire::g_mx); wire::g_server_fds.insert(r); wire::g_consumed[r]=0; wire::g_written[r]=0; if(wire::g_next_accept_is_focus.exchange(false)) wire::g_focus_fd=r; } return r; }
-extern "C" int accept4(int fd,struct sockaddr *a,socklen_t *l,int flags){ int r=syscall(SYS_accept4,fd,a,l,flags); if(r>=0){ std::lock_guard<std::mutex> g(wire::g_mx); wire::g_server_fds.insert(r); wire::g_consumed[r]=0; wire::g_written[r]=0; if(wire::g_next_accept_is_focus.exchange(false)) wire::g_focus_fd=r; } return r; }
+// the kernel's own short writes / EAGAIN on a full socket buffer are a source of nondeterminism the explorer does not own (they depend on how fast the client drains):
+// give every accepted connection a send buffer larger than any response the harnesses produce, so that pass-through writes always complete
+static void big_sndbuf(int fd){ int sz=16*1024*1024; if(setsockopt(fd,SOL_SOCKET,SO_SNDBUFFORCE,&sz,sizeof sz)!=0) setsockopt(fd,SOL_SOCKET,SO_SNDBUF,&sz,sizeof sz); }
+extern "C" int accept(int fd,struct sockaddr *a,socklen_t *l){ int r=syscall(SYS_accept,fd,a,l); if(r>=0){ big_sndbuf(r); std::lock_guard<std::mutex> g(wire::g_mx); wire::g_server_fds.insert(r); wire::g_consumed[r]=0; wire::g_written[r]=0; if(wire::g_next_accept_is_focus.exchange(false)) wire::g_focus_fd=r; } return r; }
+extern "C" int accept4(int fd,struct sockaddr *a,socklen_t *l,int flags){ int r=syscall(SYS_accept4,fd,a,l,flags); if(r>=0){ big_sndbuf(r); std::lock_guard<std::mutex> g(wire::g_mx); wire::g_server_fds.insert(r); wire::g_consumed[r]=0; wire::g_written[r]=0; if(wire::g_next_accept_is_focus.exchange(false)) wire::g_focus_fd=r; } return r; }
 extern "C" int close(int fd){ { std::lock_guard<std::mutex> g(wire::g_mx); if(wire::g_server_fds.erase(fd)){ wire::g_consumed.erase(fd); wire::g_written.erase(fd); if(wire::g_focus_fd==fd) wire::g_focus_fd=-1; } } return syscall(SYS_close,fd); }
 extern "C" ssize_t readv(int fd,const struct iovec *iov,int cnt){
 	bool scripted=false,forced=false; if(fd==wire::g_focus_fd){ std::lock_guard<std::mutex> g(wire::g_mx); forced=!wire::g_forced_cuts.empty(); if(wire::g_explore_reads||forced) scripted=wire::g_server_fds.count(fd)>0; }
